@@ -597,7 +597,7 @@ func c12Mutate(t *rapid.T, body []byte, donor []byte) ([]byte, []string) {
 	var kinds []string
 	n := rapid.IntRange(1, 4).Draw(t, "nmut")
 	for i := 0; i < n && len(b) > 0; i++ {
-		k := rapid.SampledFrom([]string{"truncate", "flip", "byte", "pkglen", "pkglen", "selfname", "splice", "swapop", "dup", "insert", "nest", "bufnest", "bufnest", "fieldconn", "extop", "selfpath", "selfpath", "outrun", "segprefix"}).Draw(t, "mutk")
+		k := rapid.SampledFrom([]string{"truncate", "flip", "byte", "pkglen", "pkglen", "selfname", "splice", "swapop", "dup", "insert", "nest", "bufnest", "bufnest", "fieldconn", "extop", "selfpath", "selfpath", "outrun", "segprefix", "supername"}).Draw(t, "mutk")
 		pos := rapid.IntRange(0, len(b)-1).Draw(t, "pos")
 		switch k {
 		case "truncate":
@@ -759,6 +759,55 @@ func c12Mutate(t *rapid.T, body []byte, donor []byte) ([]byte, []string) {
 				}
 				break
 			}
+		case "supername":
+			// an operator whose target operand is a reference expression (Index, DerefOf, RefOf)
+			// over a name path in any of its forms, inside a block that is parsed later (While,
+			// Buffer size) or straight away
+			seg := func(tag string) []byte {
+				return []byte(rapid.SampledFrom([]string{"ABCD", "EFGH", "_SB_", "PCI0", "FOO_", "X___"}).Draw(t, tag))
+			}
+			var name []byte
+			switch rapid.IntRange(0, 7).Draw(t, "snform") {
+			case 0:
+				name = seg("sn0")
+			case 1, 2:
+				name = append(append([]byte{0x2e}, seg("sn1")...), seg("sn2")...)
+			case 3:
+				name = append(append(append([]byte{0x2f, 0x03}, seg("sn1")...), seg("sn2")...), seg("sn3")...)
+			case 4:
+				name = append(append([]byte{'\\', 0x2e}, seg("sn1")...), seg("sn2")...)
+			case 5:
+				name = append([]byte{'^'}, seg("sn1")...)
+			case 6:
+				name = append(append([]byte{'^', '^', 0x2e}, seg("sn1")...), seg("sn2")...)
+			default:
+				name = []byte{0x00} // null name
+			}
+			var ref []byte
+			switch rapid.IntRange(0, 4).Draw(t, "snref") {
+			case 0, 1:
+				ref = append(append([]byte{0x88}, name...), 0x00, 0x00) // Index(name, Zero, <no target>)
+			case 2:
+				ref = append([]byte{0x83}, name...) // DerefOf(name)
+			case 3:
+				ref = append([]byte{0x71}, name...) // RefOf(name)
+			default:
+				ref = name
+			}
+			op := rapid.SampledFrom([][]byte{{0x75}, {0x75}, {0x76}, {0x87}, {0x70, 0x01}, {0x8e}, {0x72, 0x01, 0x01}, {0x5b, 0x12}}).Draw(t, "snop")
+			expr := append(append([]byte(nil), op...), ref...)
+			var ins []byte
+			switch rapid.IntRange(0, 4).Draw(t, "snwrap") {
+			case 0, 1: // While(One) { expr }
+				ins = append([]byte{0xa2, byte(2 + len(expr)), 0x01}, expr...)
+			case 2: // While(expr) { }
+				ins = append([]byte{0xa2, byte(1 + len(expr))}, expr...)
+			case 3: // Name(BUF_, Buffer(expr) { })
+				ins = append([]byte{0x08, 'B', 'U', 'F', '_', 0x11, byte(1 + len(expr))}, expr...)
+			default:
+				ins = expr
+			}
+			b = append(b[:pos], append(ins, b[pos:]...)...)
 		case "outrun":
 			// packages that claim to extend beyond the package that contains them, nested: at
 			// every level a short outer package (Buffer, Package, VarPackage) whose first operand
